@@ -247,12 +247,13 @@ class SimOptions(dict):
     the simulator's statement-start event (pre-emption point, crash point, logical clock tick).
     `copy()` keeps included scripts instrumented (the runtime runs includes under options.copy()).
     """
-    __slots__ = ('sim_hook', 'default_seen')
+    __slots__ = ('sim_hook', 'default_seen', 'env_cell')
 
     def __init__(self, *a, **kw):
         dict.__init__(self, *a, **kw)
         self.sim_hook = None
         self.default_seen = None
+        self.env_cell = None
 
     def __setitem__(self, key, value):
         dict.__setitem__(self, key, value)
@@ -268,6 +269,7 @@ class SimOptions(dict):
         c = SimOptions(self)
         c.sim_hook = self.sim_hook
         c.default_seen = self.default_seen
+        c.env_cell = self.env_cell
         return c
 
 
